@@ -13,6 +13,7 @@ import (
 	"encoding/hex"
 	"encoding/json"
 	"fmt"
+	"math/big"
 	"os"
 	"runtime"
 	"sync"
@@ -308,3 +309,21 @@ func CheckAlloc() {
 // feasible value and the concrete value is returned (so that what follows is
 // computed concretely); natively it is the identity.
 func PickU64(v uint64) uint64 { return v }
+
+// BigInt returns a symbolic math/big integer of unbounded magnitude (an SMT
+// Int under the engine; natively parsed from the decimal string in the replay file).
+func BigInt(name string) *big.Int {
+	mu.Lock()
+	defer mu.Unlock()
+	load()
+	r := new(big.Int)
+	if v, ok := inputs[unique(name)]; ok {
+		switch v := v.(type) {
+		case string:
+			r.SetString(v, 10)
+		case float64:
+			r.SetInt64(int64(v))
+		}
+	}
+	return r
+}
